@@ -447,18 +447,74 @@ class C13(Prop):
                 "seed": rng.next() >> 12, "rounds": rng.range(1, 3), "base_params": base_params,
                 "base_symbols": base_symbols, "expect": expect}
 
+    # ================================================================ generation: seq
+    def gen_seq(self, rng, thrash):
+        """sequences of different inputs on one scanner; reference = a scanner compiled for that one scan"""
+        if thrash:
+            # state-hungry regexes: the lazy-DFA cache of the validator (shared through the pool, reused from scan
+            # to scan) is filled and cleared many times by inputs that share no DFA state
+            k = rng.choice([17, 18, 19])
+            n = rng.choice([3000, 3500, 5000, 7000])
+            ninputs = max(12, 120000 // n)
+            lines = ["rule tail { strings: $r = /xy[ab]*a[ab]{%d}c/ condition: $r }" % k,
+                     "rule small { condition: filesize < 100 }"]
+            if rng.chance(1, 2):
+                lines.append("rule tail2 { strings: $r = /y[ab]{2,}?b[ab]{%d}c/ condition: #r > 0 }" % (k - 3))
+            inputs = [{"xs": rng.next() >> 12, "prefix": b"xy".hex(), "body": n + rng.below(200), "alphabet": b"ab".hex(),
+                       "mid": b"a".hex(), "tail": k, "end": b"c".hex()} for _ in range(ninputs)]
+            order = list(range(ninputs)) + [0, ninputs - 1]
+            return {"kind": "seq", "family": "thrash", "rules": [{"ns": None, "src": "\n".join(lines)}],
+                    "inputs": inputs, "order": order, "must_match": ["tail"]}
+        # inputs decided without the string scan mixed with inputs that need it; default parameters mostly
+        lines = ['rule s0 { strings: $a = "abc" condition: filesize < 5 or $a }',
+                 'rule s1 { strings: $a = "marker" $b = /m[a-z]{2}ker[0-9]?/ condition: filesize > 40 and ($a or $b) }',
+                 'rule s2 { strings: $a = "abc" condition: #a > 1 or filesize == 3 }',
+                 'rule s3 { strings: $a = "xyz" condition: filesize < 10 }',
+                 'rule s4 { strings: $a = "abc" $b = "zzz" condition: $a at 0 or (filesize > 20 and $b) }',
+                 'rule s5 { condition: filesize > 15 }',
+                 'rule s6 { strings: $a = "abc" nocase condition: filesize < 8 or @a[1] > 3 }']
+        lines = [l for l in lines if rng.chance(4, 5)] or lines[:1]
+        small = [b"abc", b"ab", b"", b"abcd", b"xyzabc", b"ABC", b"zzz", b"abcabc"]
+        inputs = []
+        for _ in range(rng.range(3, 7)):
+            if rng.chance(1, 2):
+                inputs.append(rng.choice(small))
+            else:
+                body = bytearray(rng.bytes(rng.range(10, 80), b"0123456789 defgh"))
+                for _ in range(rng.below(4)):
+                    pos = rng.below(len(body) + 1)
+                    body[pos:pos] = rng.choice([b"abc", b"marker", b"marker7", b"zzz", b"xyz", b"ABC", b"mooker"])
+                if rng.chance(1, 3):
+                    body[0:0] = b"abc"
+                inputs.append(bytes(body))
+        inputs[0] = rng.choice(small)                       # at least one of each sort
+        inputs[1] = b"0123456789 abc 0123456789 abc" if rng.chance(1, 2) else inputs[1] + b" 0123456789 abc zzz"
+        order = [0, 1, 0] + [rng.below(len(inputs)) for _ in range(rng.range(3, 12))]
+        if rng.chance(1, 2):
+            order = rng.shuffle(order)
+        case = {"kind": "seq", "family": "noscan", "rules": [{"ns": None, "src": "\n".join(lines)}],
+                "inputs": [b.hex() for b in inputs], "order": order}
+        if rng.chance(1, 4):
+            case["params"] = {"compute_full_matches": rng.chance(1, 2), "include_not_matched": rng.chance(1, 2),
+                              "string_max_nb_matches": rng.choice([1, 2, 1000])}
+        return case
+
     # ================================================================ protocol
     def generate(self, ctx, rng, n):
         out = []
         for i in range(n):
             r = rng.fork("c%d" % i)
             k = i % 20
-            if k < 11:
+            if k < 10:
                 out.append(self.gen_hist(r))
-            elif k < 14:
+            elif k < 12:
                 out.append(self.gen_hash(r))
-            else:
+            elif k < 17:
                 out.append(self.gen_conc(r))
+            elif k < 19:
+                out.append(self.gen_seq(r, False))
+            else:
+                out.append(self.gen_seq(r, i % 40 == 19))     # the cache-thrashing family is the expensive one
         return out
 
     def budget(self, tier):
@@ -495,6 +551,9 @@ class C13(Prop):
                 ctx.count("conc jobs", len(c["jobs"]))
                 for j in c["jobs"]:
                     ctx.count("conc api=" + j["api"])
+            elif c["kind"] == "seq":
+                ctx.count("seq family=" + c.get("family", "?"))
+                ctx.count("seq scans", len(c["order"]))
             else:
                 ctx.count("hash calls", len(c["calls"]))
         return outs
@@ -768,6 +827,22 @@ class C13(Prop):
         except (KeyError, ValueError, TypeError, IndexError):
             return (False, False, 0)
 
+    def term_seq(self, case, out):
+        try:
+            fresh = out["fresh"]
+            n = len(case["inputs"])
+            if len(fresh) != n or len(out["seq"]) != len(case["order"]):
+                return (False, False, 0)
+            ok = all("panic" not in f and f.get("error") is None for f in fresh)
+            for name in case.get("must_match", []):
+                ok = ok and all(any(r["name"] == name and r["matched"] for r in f["rules"]) for f in fresh)
+            same = all(e["res"] == fresh[e["input"]] for e in out["seq"])
+            for key in ("clone_before", "clone_after", "last"):
+                same = same and len(out[key]) == n and all(out[key][i] == fresh[i] for i in range(n))
+            return (ok and same, ok and same, 0)
+        except (KeyError, ValueError, TypeError, IndexError):
+            return (False, False, 0)
+
     def term(self, ctx, case, out):
         if not isinstance(out, dict) or "panic" in out or "crash" in out or "compile_error" in out or "error" in out:
             return (False, False, 0)
@@ -775,6 +850,8 @@ class C13(Prop):
             return self.term_hist(case, out)
         if case["kind"] == "hash":
             return self.term_hash(case, out)
+        if case["kind"] == "seq":
+            return self.term_seq(case, out)
         return self.term_conc(case, out)
 
     def nontrivial(self, case, out):
@@ -783,6 +860,10 @@ class C13(Prop):
             ops = case["ops"]
             if any(o["op"] == "clone" for o in ops) and any(o["op"] in ("define", "params", "mdata") for o in ops):
                 return json.dumps([case["csymbols"], ops], sort_keys=True)
+            return None
+        if k == "seq":
+            if len(set(case["order"])) >= 2:
+                return json.dumps([case["rules"], case["inputs"], case["order"], case.get("params")], sort_keys=True)
             return None
         if k == "hash":
             rs = [(c["alg"], c.get("o"), c.get("n")) for c in case["calls"] if "o" in c]
@@ -798,6 +879,9 @@ class C13(Prop):
         if case["kind"] == "conc":
             c["jobs"] = [{k: (v if k != "input" else v[:40] + "...") for k, v in j.items()} for j in case["jobs"][:4]]
             o = {"oracle_first": (out or {}).get("oracle", [None])[0]} if isinstance(out, dict) else out
+        elif case["kind"] == "seq":
+            c["inputs"] = [(v if not isinstance(v, str) else v[:40] + "...") for v in case["inputs"][:4]]
+            o = {"fresh_first": (out or {}).get("fresh", [None])[0]} if isinstance(out, dict) else out
         elif case["kind"] == "hist":
             o = {"last_step": (out or {}).get("steps", [None])[-1]} if isinstance(out, dict) and out.get("steps") else out
         else:
